@@ -86,9 +86,20 @@ fn check_pt(p: &Pt) -> CaseResult {
         Ok(t) => ensure!(t == (p.z, p.x, p.y), "C07/zxy-differs", "zxy({want}) = {:?}, expected {:?}", t, (p.z, p.x, p.y)),
         Err(_) => fail!("C07/zxy-rejects-valid-id", "zxy({want}) is Err"),
     }
+    // the same cell asked again at other zooms, back to back (the answer must not depend on the previous call)
+    let mut others = 0;
+    for z2 in [p.z.saturating_add(1), p.z.saturating_add(5), 31, p.z.saturating_sub(1), p.z] {
+        if z2 > 31 || z2 == p.z && others == 0 {
+            continue;
+        }
+        let Some(w2) = hilbert::zxy_to_id(z2, p.x, p.y) else { continue };
+        let g2 = guarded("util::tile_id", || pmtiles2::util::tile_id(z2, p.x, p.y))?;
+        ensure!(g2 == w2, "C07/tile_id-differs/after-another-zoom", "tile_id({z2},{},{}) = {g2} right after the same cell at zoom {}, specification says {w2}", p.x, p.y, p.z);
+        others += 1;
+    }
     let m = (1u64 << p.z) - 1;
     let corner = (p.x == 0 || p.x == m) && (p.y == 0 || p.y == m);
-    Ok(Meta::new(p.z >= 2 && !corner).label(p.z >= 16, "zoom>=16").label(p.z == 31, "zoom31"))
+    Ok(Meta::new(p.z >= 2 && !corner).label(p.z >= 16, "zoom>=16").label(p.z == 31, "zoom31").label(others > 0, "same-cell-at-several-zooms-back-to-back"))
 }
 
 fn check_idcase(c: &IdCase) -> CaseResult {
